@@ -23,10 +23,33 @@ import (
 	"verifharness/mon"
 )
 
-const (
-	verifDir = "/verif"
-	repoDir  = "/repo"
-)
+const verifDir = "/verif"
+
+// repoDir is the tree the library is built from: /repo, or $VERIF_REPO for background sweeps
+// that must not be disturbed by edits to /repo (the registered commands never set it).
+var repoDir = "/repo"
+
+// modFlags: when the library comes from somewhere else than /repo, builds use a copy of the
+// harness go.mod whose replace directive points there.
+var modFlags = "-mod=mod"
+
+func setupRepoDir() {
+	if v := os.Getenv("VERIF_REPO"); v != "" && v != "/repo" {
+		repoDir = v
+		b, err := os.ReadFile(filepath.Join(harnessDir, "go.mod"))
+		if err != nil {
+			fatal2("%v", err)
+		}
+		mf := filepath.Join(scratch, "alt.mod")
+		os.WriteFile(mf, []byte(strings.ReplaceAll(string(b), "=> /repo", "=> "+v)), 0o644)
+		if sum, err := os.ReadFile(filepath.Join(harnessDir, "go.sum")); err == nil {
+			os.WriteFile(filepath.Join(scratch, "alt.sum"), sum, 0o644)
+		} else {
+			os.WriteFile(filepath.Join(scratch, "alt.sum"), nil, 0o644)
+		}
+		modFlags = "-mod=mod -modfile=" + mf
+	}
+}
 
 var (
 	harnessDir = filepath.Join(verifDir, "harness")
@@ -79,6 +102,7 @@ func main() {
 		scratch = d
 		defer os.RemoveAll(d)
 	}
+	setupRepoDir()
 	rc := &runCfg{prop: prop, tier: *tier, seed: seed, workers: *workers, only: -1, replay: *replay, verbose: *verbose}
 	if prop == "setup" {
 		os.Exit(doSetup(rc))
@@ -128,13 +152,13 @@ var (
 
 func goEnv() []string {
 	env := os.Environ()
-	env = append(env, "GOFLAGS=-mod=mod", "GOPROXY=off", "GOSUMDB=off", "GOTOOLCHAIN=local", "CGO_ENABLED=0")
+	env = append(env, "GOFLAGS="+modFlags, "GOPROXY=off", "GOSUMDB=off", "GOTOOLCHAIN=local", "CGO_ENABLED=0")
 	return env
 }
 
 func goEnvCgo() []string {
 	env := os.Environ()
-	env = append(env, "GOFLAGS=-mod=mod", "GOPROXY=off", "GOSUMDB=off", "GOTOOLCHAIN=local", "CGO_ENABLED=1")
+	env = append(env, "GOFLAGS="+modFlags, "GOPROXY=off", "GOSUMDB=off", "GOTOOLCHAIN=local", "CGO_ENABLED=1")
 	return env
 }
 
